@@ -2,4 +2,4 @@
 From Verif Require Import RegenBase Gen_Regen Regen.
 Require Extraction ExtrOcamlBasic.
 Extraction Language OCaml.
-Extraction "model.ml" step history empty_fs upd obs canonical targets.
+Extraction "model.ml" step step_crash history empty_fs upd obs canonical targets.
